@@ -194,6 +194,17 @@ def behaviours_from_dump(path, maxops):
     return out
 
 
+def thin_two_name(behs, thorough, keep=4):
+    """quick tier: every behaviour without a two-name activation, and a fixed 1-in-`keep` sample (by position in the operation
+    sequence order) of those with one; thorough tier: everything"""
+    if thorough:
+        return behs
+    import zlib
+    def two(h):
+        return any(x["op"][0] in ("enable2", "with_enter2") for x in h)
+    return [h for h in behs if not two(h) or zlib.crc32(repr([x["op"] for x in h]).encode()) % keep == 0]
+
+
 def behaviours_from_sim(pattern):
     out = []
     for f in sorted(glob.glob(pattern)):
@@ -221,6 +232,12 @@ class Stepper:
                     u.enable_contexts(op[1], p=kw)
                 else:
                     u.enable_contexts(op[1])
+            elif kind == "enable2":
+                u.enable_contexts(op[1], op[2])
+            elif kind == "with_enter2":
+                cm = u.context(op[1], op[2])
+                cm.__enter__()
+                self.cms.append(cm)
             elif kind == "disable":
                 u.disable_contexts(op[1])
             elif kind == "with_enter":
@@ -312,12 +329,14 @@ def random_histories(model, rng, ntraces, length, dense, tid0=0):
                 c = rng.choice(ctxs)
                 kw = [5, 1] if (c == "R" and rng.random() < 0.4) else [0, 1]
                 op = ["enable", c, kw]
-            elif r < 0.36:
+            elif r < 0.30:
                 op = ["with_enter", rng.choice(ctxs), [0, 1]]
+            elif r < 0.36:
+                op = [rng.choice(["enable2", "with_enter2"]), rng.choice(ctxs), rng.choice(ctxs)]
             elif r < 0.50 and st.cms:
                 op = ["with_exit", rng.choice(["normal", "raise"])]
             elif r < 0.62:
-                op = ["disable", rng.choice([1, 1, 2, 0])]
+                op = ["disable", rng.choice([1, 1, 2, 0, 3])]
             elif r < 0.68 and not defined:
                 op = ["define", "new1"]
                 defined = True
@@ -368,11 +387,15 @@ def surviving_activations(evs):
             stack.append(op)
             if op[0] == "with_enter":
                 frames.append(1)
+        elif op[0] in ("enable2", "with_enter2") and e["res"] == "ok":
+            stack += [["enable", op[1], [0, 1]], ["enable", op[2], [0, 1]]]
+            if op[0] == "with_enter2":
+                frames.append(2)
         elif op[0] == "disable":
             del stack[max(0, len(stack) - op[1]):]
         elif op[0] == "with_exit" and frames:
-            frames.pop()
-            del stack[max(0, len(stack) - 1):]
+            n = frames.pop()
+            del stack[max(0, len(stack) - n):]
     return stack
 
 
